@@ -141,15 +141,18 @@ def identify_district_variables(  # noqa:C901
                 "   Is the district_probability a PopulationProbability? "
                 + str(isinstance(district_probability, PopulationProbability))
             )
+            # Q[T] may be given in an intervened world (e.g., P_{pa(T)}(T)): marginalize within that world
+            world = {child.get_base(): child for child in district_probability.children}
+            ancestral_set_children = [world.get(a, a) for a in ordered_ancestral_set]
             if isinstance(district_probability, PopulationProbability):
                 ancestral_set_probability = PopulationProbability(
                     population=district_probability.population,
-                    distribution=ordered_ancestral_set[0].joint(ordered_ancestral_set[1:])
+                    distribution=ancestral_set_children[0].joint(ancestral_set_children[1:])
                     | district_probability.parents,
                 )
             else:
                 ancestral_set_probability = P(
-                    ordered_ancestral_set[0].joint(ordered_ancestral_set[1:])
+                    ancestral_set_children[0].joint(ancestral_set_children[1:])
                     | district_probability.parents
                 )
             logger.debug(
@@ -249,6 +252,9 @@ def compute_c_factor_conditioning_on_topological_predecessors(
             "Error in _compute_c_factor_conditioning_on_topological_predecessors: a variable in the district"
             + " is not in the topological sort of the graph vertices."
         )
+    # The probability may be given in an intervened world (e.g., Q[H] = P_{pa(H)}(H)): Lemma 1 is applied
+    # within that world, so every variable keeps the intervention subscripts it has in the given probability.
+    world = {child.get_base(): child for child in graph_probability.children}
     if isinstance(graph_probability, PopulationProbability):
         population_probabilities = []
         # A little subtle so it deserves a comment: the Q value passed into Tian's Identify function may
@@ -256,12 +262,13 @@ def compute_c_factor_conditioning_on_topological_predecessors(
         # (but not Lemma 4), we have to make sure we're also conditioning on those variables.
         graph_probability_parents = set(graph_probability.parents)
         for variable in district:
-            preceding_variables = topo[: topo.index(variable)]
+            preceding_variables = [world.get(v, v) for v in topo[: topo.index(variable)]]
             conditioned_variables = graph_probability_parents.union(preceding_variables)  # V^(i-1)
             pp = PopulationProbability(
                 population=graph_probability.population,
                 distribution=Distribution(
-                    children=(variable,), parents=tuple(conditioned_variables)
+                    children=(world.get(variable, variable),),
+                    parents=tuple(conditioned_variables),
                 ),
             )
             population_probabilities.append(pp)
@@ -280,9 +287,9 @@ def compute_c_factor_conditioning_on_topological_predecessors(
         # (but not Lemma 4), we have to make sure we're also conditioning on those variables.
         graph_probability_parents = set(graph_probability.parents)
         for variable in district:
-            preceding_variables = topo[: topo.index(variable)]
+            preceding_variables = [world.get(v, v) for v in topo[: topo.index(variable)]]
             conditioned_variables = graph_probability_parents.union(preceding_variables)  # V^(i-1)
-            probability = P(variable | conditioned_variables)  # v_i
+            probability = P(world.get(variable, variable) | conditioned_variables)  # v_i
             probabilities.append(probability)
         logger.debug(
             "In _compute_c_factor_conditioning_on_topological_predecessors: returning "
